@@ -164,6 +164,8 @@ type Exec struct {
 	pools      map[string][]Value
 	frozenTime bool
 	now        int64
+	ndl        int64
+	passedDl   map[int64]bool
 	ctxs       []*ctxObj
 	initPkgs   map[string]bool
 	stubs      map[string]*ssa.Function // qualified name -> harness function
